@@ -140,7 +140,10 @@ impl<E: Elem> World<E> {
         debug_assert_eq!(old_order, order);
         self.refs[r] = Some(new_ref);
         match res {
-            None => out.observe("panic"),
+            None => {
+                out.oracle_fail(&format!("{op}: the operation panicked"));
+                out.observe("panic")
+            }
             Some(()) => {
                 let m = self.regs[r].as_ref().unwrap();
                 out.observe(&format!("ok | {}", st_str(m)));
@@ -239,5 +242,45 @@ impl<E: Elem> World<E> {
         out.count(if valid { if pi == pj { "swap-elem:same-element" } else { "swap-elem:distinct" } } else { "swap-elem:invalid" });
         out.observe(&obs);
         self.check_reg(out, r, &op);
+    }
+
+    /// dest.overwrite(&src): clones are visible (primed payloads) and counted by the ledger
+    pub fn overwrite(&mut self, out: &mut Out, r: usize, q: usize) where E: Clone {
+        let op = format!("overwrite {r} {q}");
+        out.announce(&op);
+        let before = snapshot();
+        let src = self.regs[q].take().unwrap();
+        let res = {
+            let dst = self.regs[r].as_mut().unwrap();
+            catch(|| { dst.overwrite(&src); })
+        };
+        let after = snapshot();
+        let (sorder, srf) = self.refs[q].clone().unwrap();
+        let (dorder, mut drf) = self.refs[r].take().unwrap();
+        let (br, bc) = (drf.nrows.min(srf.nrows), drf.ncols.min(srf.ncols));
+        for i in 0..br {
+            for j in 0..bc {
+                drf.rows[i][j] = if E::MARKS_CLONES { format!("{}'", srf.rows[i][j]) } else { srf.rows[i][j].clone() };
+            }
+        }
+        self.refs[r] = Some((dorder, drf));
+        let _ = sorder;
+        if !E::ZST && E::KIND == "tok" {
+            let block = (br * bc) as u64;
+            if after.cloned - before.cloned != block || after.dropped - before.dropped != block || after.created != before.created {
+                out.oracle_fail(&format!("{op}: block of {block} elements, but {} clones and {} drops", after.cloned - before.cloned, after.dropped - before.dropped));
+            }
+        }
+        let obs = match res {
+            None => {
+                out.oracle_fail(&format!("{op}: overwrite panicked (dest {}x{}, src {}x{})", self.refs[r].as_ref().unwrap().1.nrows, self.refs[r].as_ref().unwrap().1.ncols, srf.nrows, srf.ncols));
+                "panic".to_string()
+            }
+            Some(()) => format!("ok | {} | {}", st_str(self.regs[r].as_ref().unwrap()), st_str(&src)),
+        };
+        out.observe(&obs);
+        self.regs[q] = Some(src);
+        self.check_reg(out, r, &op);
+        self.check_reg(out, q, &op);
     }
 }
